@@ -52,6 +52,7 @@ import (
 	"sort"
 	"strings"
 	"sync"
+	"unicode"
 
 	"github.com/google/licenseclassifier/stringclassifier/internal/pq"
 	"github.com/google/licenseclassifier/stringclassifier/searchset"
@@ -361,12 +362,26 @@ func newMatcher(unknown string, threshold float64) *matcher {
 // are the best matches.
 func (m *matcher) findMatches(known *knownValue) {
 	var mrs []searchset.MatchRanges
+	// For each exact occurrence: its byte range, with and without the white space
+	// at its ends.
+	var occs [][4]int
 	if all := findAllIndex(m.normUnknown, known.normalizedValue); all != nil {
 		// We found exact matches. Just use those!
 		for _, a := range all {
+			// A known value may begin or end with white space (a text registered
+			// with its final newline, say). No token covers that white space: the
+			// tokens of the occurrence are those of the text between it.
+			occ := m.normUnknown[a[0]:a[len(a)-1]]
+			lo := a[0] + len(occ) - len(strings.TrimLeftFunc(occ, unicode.IsSpace))
+			hi := a[len(a)-1] - (len(occ) - len(strings.TrimRightFunc(occ, unicode.IsSpace)))
+			if lo >= hi {
+				lo, hi = a[0], a[len(a)-1]
+			}
+			occs = append(occs, [4]int{a[0], a[len(a)-1], lo, hi})
+
 			var start, end int
 			for i, tok := range m.unknown.Tokens {
-				if tok.Offset == a[0] {
+				if tok.Offset == lo {
 					start = i
 				}
 				// The last token of the occurrence is the last one that starts
@@ -374,7 +389,7 @@ func (m *matcher) findMatches(known *knownValue) {
 				// occurrence finds none when the value ends in white space and
 				// stands at the end of the text; end then kept its zero value and
 				// normUnknown[start:end] panicked with start > end.)
-				if tok.Offset >= a[len(a)-1] {
+				if tok.Offset >= hi {
 					break
 				}
 				end = i
@@ -393,14 +408,23 @@ func (m *matcher) findMatches(known *knownValue) {
 	}
 
 	var wg sync.WaitGroup
-	for _, mr := range mrs {
+	for i, mr := range mrs {
 		if !m.withinConfidenceThreshold(known.set, mr) {
 			continue
 		}
 
+		var occ *[4]int
+		if i < len(occs) {
+			occ = &occs[i]
+		}
 		wg.Add(1)
-		go func(mr searchset.MatchRanges) {
+		go func(mr searchset.MatchRanges, occ *[4]int) {
 			start, end := mr.TargetRange(m.unknown)
+			if occ != nil && start == occ[2] && end == occ[3] {
+				// The tokens are exactly the occurrence's: the match is the
+				// occurrence, the white space the value begins or ends with included.
+				start, end = occ[0], occ[1]
+			}
 			conf := levDist(m.normUnknown[start:end], known.normalizedValue)
 			if conf > 0.0 {
 				m.mu.Lock()
@@ -408,7 +432,7 @@ func (m *matcher) findMatches(known *knownValue) {
 				m.mu.Unlock()
 			}
 			wg.Done()
-		}(mr)
+		}(mr, occ)
 	}
 	wg.Wait()
 }
